@@ -1,5 +1,6 @@
 import DS.Driver.RollD
 import DS.Driver.VMapD
+import DS.Driver.ErrFmtD
 open DS.Driver
 
 def dispatch (line : String) : String :=
@@ -9,6 +10,7 @@ def dispatch (line : String) : String :=
   | t :: _ =>
     if t ∈ ["rng", "roll", "common", "coc", "fate", "wod", "dc"] then rollLine toks
     else if t == "vmap" then vmapLine toks
+    else if t == "errfmt" then errfmtLine toks
     else "bad-op"
 
 partial def loop (hin : IO.FS.Stream) (hout : IO.FS.Stream) : IO Unit := do
